@@ -73,24 +73,32 @@ def convertFunction (a b : Unit α) : Except Err (α → α) :=
   if !sameDimension a b then .error .unitsDimension
   else .ok (fun v => convertRaw v a b)
 
-/-- `convert_array(array, unit_from, unit_to)` (numpy broadcasting = `map`); no dimension check in the code.
-The offset-free branch multiplies by the *pre-divided* factor `unit_from.scale / unit_to.scale`. -/
-def convertArray (xs : List α) (a b : Unit α) : List α :=
-  if a.hasOffset || b.hasOffset then
-    xs.map (fun x => ((x - a.offset) * a.scale) / b.scale + b.offset)
+/-- `convert_array(array, unit_from, unit_to)` (numpy broadcasting = `map`): the dimension check of `convert`, then
+the offset-free branch multiplies by the *pre-divided* factor `unit_from.scale / unit_to.scale`. -/
+def convertArray (xs : List α) (a b : Unit α) : Except Err (List α) :=
+  if !sameDimension a b then .error .unitsDimension
+  else if a.hasOffset || b.hasOffset then
+    .ok (xs.map (fun x => ((x - a.offset) * a.scale) / b.scale + b.offset))
   else
-    xs.map (fun x => x * (a.scale / b.scale))
+    .ok (xs.map (fun x => x * (a.scale / b.scale)))
 
-/-- `convert_array_inplace`: four successive whole-array updates (`-=`, `*=`, `/=`, `+=`), or one `*=`. The list
-returned is the content of the array afterwards. -/
-def convertArrayInplace (xs : List α) (a b : Unit α) : List α :=
-  if a.hasOffset || b.hasOffset then
+/-- `convert_array_inplace`: the dimension check (raised before the array is touched), then four successive
+whole-array updates (`-=`, `*=`, `/=`, `+=`), or one `*=`. `.ok ys`: the content of the array afterwards. -/
+def convertArrayInplace (xs : List α) (a b : Unit α) : Except Err (List α) :=
+  if !sameDimension a b then .error .unitsDimension
+  else if a.hasOffset || b.hasOffset then
     let xs := xs.map (fun x => x - a.offset)
     let xs := xs.map (fun x => x * a.scale)
     let xs := xs.map (fun x => x / b.scale)
-    xs.map (fun x => x + b.offset)
+    .ok (xs.map (fun x => x + b.offset))
   else
-    xs.map (fun x => x * (a.scale / b.scale))
+    .ok (xs.map (fun x => x * (a.scale / b.scale)))
+
+/-- the content of the caller's array after `convert_array_inplace` returned or raised -/
+def arrayAfterInplace (xs : List α) (a b : Unit α) : List α :=
+  match convertArrayInplace xs a b with
+  | .ok ys => ys
+  | .error _ => xs
 
 /-! ## LIS/core/Units.py -/
 
